@@ -15,6 +15,8 @@ pub(crate) struct AcceptSnap {
     pub paused: bool,
     pub timeout_ms: i64,
     pub sock_backoff: Vec<bool>,
+    /// the back-off deadline of the socket has passed (virtual clock) but is still set
+    pub sock_expired: Vec<bool>,
 }
 
 impl Stepped {
@@ -43,6 +45,11 @@ impl Stepped {
             paused: self.accept.paused,
             timeout_ms: self.accept.timeout.map(|d| d.as_millis() as i64).unwrap_or(-1),
             sock_backoff: self.sockets.iter().map(|s| s.timeout.is_some()).collect(),
+            sock_expired: self
+                .sockets
+                .iter()
+                .map(|s| s.timeout.map(|t| Instant::now() >= t).unwrap_or(false))
+                .collect(),
         }
     }
 }
